@@ -29,3 +29,6 @@ M("alpha-cap-half", "subspacemin.py", "    alpha_star = min(\n        1.0,\n", "
 M("alpha-quotient", "subspacemin.py", "    return xc + alpha_star * Z @ dHat", "    return xc + alpha_star / Z @ dHat", ["ALPHA"])
 M("sign-mask-one", "subspacemin.py", "    mask = dHat != 0\n", "    mask = dHat != 1\n", ["SIGN"])
 M("free-Z-zeros", "subspacemin.py", "    Z[free_vars, np.arange(nb_free_vars)] = 1\n", "    Z[free_vars, np.arange(nb_free_vars)] = 0\n", ["FREE"])
+
+# ---- PIN: after the walk (round 5)
+M("pin-rebuild-after-walk", "cauchy.py", "    x_cp[t >= t_cur] = (x + t_old * d)[t >= t_cur]\n", "    x_cp = np.clip(x - t_old * grad, lb, ub)\n", ["PIN"])
